@@ -58,6 +58,15 @@ Moralize(G)   == MkG(G.n, G.d, G.b \cup MoralLinks(G))
 \* disorient: a simple undirected graph over the same nodes (edge set of 2-sets)
 Disorient(G)  == [n |-> G.n, e |-> G.b \cup {{e[1], e[2]} : e \in G.d}]
 
+\* ---------------------------------------------------------------- further documented helpers of y0.graph
+\* (not in the list of C14; replayed as diagnostics)
+IntervenedAncestors(G, X, Y) == An(RemoveIn(G, X), Y)
+NoEffectOnOutcomes(G, X, Y)  == (G.n \ X) \ IntervenedAncestors(G, X, Y)
+\* docstring: a treatment is a-fixable if it has exactly one descendant (itself) in its district
+AFixable(G, v) == Cardinality(District(G, v) \cap De(G, {v})) = 1
+\* p-fixable: none of its children is in its district
+PFixable(G, v) == District(G, v) \cap Ch(G, v) = {}
+
 \* ---------------------------------------------------------------- orders
 IsPerm(seq, S) == /\ Len(seq) = Cardinality(S)
                   /\ {seq[i] : i \in 1..Len(seq)} = S
